@@ -199,7 +199,37 @@ def has_subterm(t, pred):
 
 # ------------------------------------------------------------------ byte predicates
 
+STD_BYTE_CLASSES = {
+    # documented sets of the std byte/char classification helpers (library facts)
+    "is_ascii_whitespace": lambda v: v in (9, 10, 12, 13, 32),
+    "is_ascii_digit": lambda v: 48 <= v <= 57,
+    "is_ascii_alphabetic": lambda v: 65 <= v <= 90 or 97 <= v <= 122,
+    "is_ascii_alphanumeric": lambda v: 48 <= v <= 57 or 65 <= v <= 90 or 97 <= v <= 122,
+    "is_ascii_uppercase": lambda v: 65 <= v <= 90,
+    "is_ascii_lowercase": lambda v: 97 <= v <= 122,
+    "is_ascii_punctuation": lambda v: 33 <= v <= 47 or 58 <= v <= 64 or 91 <= v <= 96 or 123 <= v <= 126,
+    "is_ascii_control": lambda v: v < 32 or v == 127,
+    "is_ascii_graphic": lambda v: 33 <= v <= 126,
+    "is_ascii_hexdigit": lambda v: 48 <= v <= 57 or 65 <= v <= 70 or 97 <= v <= 102,
+    "is_ascii": lambda v: v < 128,
+}
+
+
+def _std_class(user):
+    def f(name):
+        if user is not None:
+            r = user(name)
+            if r is not None:
+                return r
+        for k, fn in STD_BYTE_CLASSES.items():
+            if name_is(name, k):
+                return fn
+        return None
+    return f
+
+
 def valueset(body, domain=range(256), param=None, max_paths=5000, callee=None):
+    callee = _std_class(callee)
     """Set of values of the (last) integer/char parameter for which a loop-free predicate
     returns true, by interval/value-set propagation along every path: each fork on the
     parameter (or on a comparison of it with a constant) splits the set."""
